@@ -5,6 +5,7 @@ package websocket
 // racing through the real hub loop under schedule exploration (O2).
 
 import (
+	"sync/atomic"
 	"net/http"
 	"net/http/httptest"
 	"strings"
@@ -477,4 +478,99 @@ func VerifC16_SlowConsumerDropped() {
 	zzverif.Yield()
 	zzCleanup()
 	zzverif.Reach("dropped")
+}
+
+// a room broadcast issued directly (an HTTP route calling the room manager) while
+// a member leaves the room or is disconnected: no crash, and a message never
+// reaches a connection after LeaveRoom has returned for it
+func VerifC16_BroadcastRacesLeave() {
+	zzverif.Obligation("hub operations return")
+	cfg := DefaultConfig()
+	cfg.MessageQueueSize = 4
+	cfg.EnableReconnection = false
+	hub := NewHubWithConfig(cfg)
+	go hub.Run()
+	<-hub.started
+	c2 := NewConnection("b", zzSocket(), hub)
+	hub.register <- c2
+	c2.JoinRoom("r")
+	disconnect := zzverif.Bool("the member is disconnected (not just leaving)")
+	// natively the race is run many times (the window is a few instructions wide);
+	// under the engine once, over every schedule within the delay bound
+	rounds := 1
+	if !zzverif.Symbolic() {
+		rounds = 300
+	}
+	var c1 *Connection
+	for round := 0; round < rounds; round++ {
+		if c1 == nil || disconnect {
+			c1 = NewConnection("a", zzSocket(), hub)
+			hub.register <- c1
+		}
+		c1.JoinRoom("r")
+		for len(c2.send) > 0 {
+			<-c2.send
+		}
+		for len(c1.send) > 0 {
+			<-c1.send
+		}
+		var left int32
+		done := make(chan struct{}, 2)
+		conn := c1
+		go func() {
+			zzverif.Perturb()
+			hub.GetRoomManager().BroadcastToRoom("r", []byte("m"), nil)
+			done <- struct{}{}
+		}()
+		go func() {
+			zzverif.Perturb()
+			if disconnect {
+				hub.unregister <- conn
+			} else {
+				conn.LeaveRoom("r")
+				// what is queued when LeaveRoom returns is all there will ever be
+				atomic.StoreInt32(&left, int32(len(conn.send))+1)
+			}
+			done <- struct{}{}
+		}()
+		<-done
+		<-done
+		zzverif.Yield()
+		if !disconnect {
+			n := atomic.LoadInt32(&left)
+			zzverif.Assert(!(n > 0 && int32(len(c1.send)) > n-1), "a room message reached a connection after LeaveRoom had returned for it")
+		}
+	}
+	close(hub.shutdown)
+	zzverif.Yield()
+	zzCleanup()
+	zzverif.Reach("broadcast-leave")
+}
+
+// one connection joins and leaves the same room from two goroutines (a handler
+// and an HTTP route): afterwards its own view and the room's membership agree
+func VerifC16_JoinRacesLeave() {
+	zzverif.Obligation("hub operations return")
+	cfg := DefaultConfig()
+	cfg.EnableReconnection = false
+	hub := NewHubWithConfig(cfg)
+	go hub.Run()
+	<-hub.started
+	c1 := NewConnection("a", zzSocket(), hub)
+	hub.register <- c1
+	if zzverif.Bool("member at the start") {
+		c1.JoinRoom("r")
+	}
+	done := make(chan struct{}, 2)
+	go func() { zzverif.Perturb(); c1.JoinRoom("r"); done <- struct{}{} }()
+	go func() { zzverif.Perturb(); c1.LeaveRoom("r"); done <- struct{}{} }()
+	<-done
+	<-done
+	r, _ := hub.GetRoomManager().GetRoom("r")
+	inRoom := r != nil && r.Has(c1)
+	zzverif.Assert(c1.IsInRoom("r") == inRoom, "connection's own view differs from the room's membership after a join racing a leave")
+	close(hub.shutdown)
+	zzverif.Yield()
+	zzCleanup()
+	zzverif.Reach("join-leave")
 }
